@@ -62,6 +62,9 @@ pub fn stall_outcome(c: &StallCase) -> Outcome {
     if c.stallers.iter().any(|s| s.then == Then::Invalid) {
         o.class("complete-but-invalid-handshake");
     }
+    if c.stallers.len() >= 64 {
+        o.class("dozens-of-simultaneous-stallers");
+    }
     let c2 = c.clone();
     let (r, panics) = capture_panics(|| {
         realnet::run_net(async move {
@@ -281,7 +284,7 @@ pub fn stall_outcome(c: &StallCase) -> Outcome {
             }
             // a client that never completed its handshake has been sent nothing but handshake bytes
             for (i, rc) in kept.iter_mut().enumerate() {
-                while let Some(Ok(n)) = rc.read_some(Duration::from_millis(10)).await {
+                while let Some(Ok(n)) = rc.read_some(Duration::from_millis(if c.stallers.len() > 8 { 1 } else { 10 })).await {
                     if n == 0 {
                         break;
                     }
@@ -338,6 +341,12 @@ pub fn run(ctx: &Ctx) -> (Report, PropertyMeta) {
             }
         }
     }
+    // MANY simultaneous stallers (any fixed bound on pending handshakes starves everybody else)
+    for (kind, transport, n) in [(Kind::Rep, Transport::TcpV4, 70usize), (Kind::Pull, Transport::Ipc, 70), (Kind::Router, Transport::TcpV4, 300), (Kind::Pub, Transport::Ipc, 300)] {
+        let hs_len = refcodec::handshake_bytes(kind.a_compatible_peer(), None).len();
+        let stallers = (0..n).map(|i| Staller { offset: [0usize, 11, 64, 70][i % 4].min(hs_len - 1), then: Then::Hold }).collect();
+        cases.push(StallCase { kind, transport, stallers });
+    }
     let r = run_cases(ctx, "stall", &cases, stall_outcome);
     report.exhaustive_parts.push(format!(
         "{} socket types x {{TCP, IPC}} x one staller at {} x {{hold, close, garbage}} + 4 complete-but-invalid handshakes: {} cases",
@@ -355,7 +364,7 @@ pub fn run(ctx: &Ctx) -> (Report, PropertyMeta) {
         |s| {
             let kind = s.pick(&ALL_KINDS);
             let hs_len = refcodec::handshake_bytes(kind.a_compatible_peer(), None).len();
-            let k = s.range(1, 4);
+            let k = if s.chance(1, 25) { s.range(60, 140) } else { s.range(1, 4) };
             let stallers = (0..k)
                 .map(|_| {
                     let offset = s.below(hs_len);
@@ -380,7 +389,7 @@ pub fn run(ctx: &Ctx) -> (Report, PropertyMeta) {
 
     let meta = PropertyMeta {
         level: "fault_enumeration",
-        rule: "real bound sockets on TCP and IPC with a monitor installed; 1..4 raw clients send a prefix of a valid greeting+READY (enumerated offsets for one staller, random for several) and then hold, close, or send bytes that cannot continue a handshake (at EVERY offset: zeros to the end of the greeting then a message frame where READY is due; inside READY zeros to the end of the declared frame), or send a complete but unacceptable handshake (unknown Socket-Type, ZMTP 2.1, unknown mechanism, 256-byte identity); one well-behaved client is established before, one connects while the stallers are still connected, one afterwards. Oracle: both later clients complete the handshake and a message exchange, and the established peer keeps exchanging, while the stallers hold; no AcceptFailed is reported for a client that is merely slow; each handshake that failed (closed / garbage) produces exactly one AcceptFailed; the number of Accepted events equals the number of well-behaved clients, a client connecting afterwards exchanges normally, PUSH/DEALER rotate over exactly the admitted clients (2n sends reach each of n clients twice while stallers are still connected), and a client that never completed its handshake is sent no application message (peer set undisturbed). Non-trivial = at least one staller; distinct by case".into(),
+        rule: "real bound sockets on TCP and IPC with a monitor installed; 1..4 raw clients (and, in a few cases, 60..300 at once) send a prefix of a valid greeting+READY (enumerated offsets for one staller, random for several) and then hold, close, or send bytes that cannot continue a handshake (at EVERY offset: zeros to the end of the greeting then a message frame where READY is due; inside READY zeros to the end of the declared frame), or send a complete but unacceptable handshake (unknown Socket-Type, ZMTP 2.1, unknown mechanism, 256-byte identity); one well-behaved client is established before, one connects while the stallers are still connected, one afterwards. Oracle: both later clients complete the handshake and a message exchange, and the established peer keeps exchanging, while the stallers hold; no AcceptFailed is reported for a client that is merely slow; each handshake that failed (closed / garbage) produces exactly one AcceptFailed; the number of Accepted events equals the number of well-behaved clients, a client connecting afterwards exchanges normally, PUSH/DEALER rotate over exactly the admitted clients (2n sends reach each of n clients twice while stallers are still connected), and a client that never completed its handshake is sent no application message (peer set undisturbed). Non-trivial = at least one staller; distinct by case".into(),
         assumptions: vec![
             "'never completes' is decided with a 5 s watchdog where a handshake needs ~1 ms; the runtime is single-threaded and otherwise idle".into(),
             "REQ sockets under test only complete handshakes (a message exchange needs a single peer)".into(),
